@@ -15,6 +15,38 @@ pub fn dispatch(k: &str, t: &[&str]) -> Option<String> {
                 Err(_) => Some("err decode".to_string()),
             }
         }
+        "query_response_roundtrip" => {
+            use locustdb_serialization::api::AnyVal;
+            let mut columns = HashMap::new();
+            for tok in t {
+                let p: Vec<&str> = tok.split(':').collect();
+                let col = match p[1] {
+                    "Int" => Column::Int(vec_of(p[2])),
+                    "Float" => Column::Float(vec_f64_bits(p[2])),
+                    "Xor" => Column::Xor(vec_of(p[2])),
+                    "Null" => Column::Null(num(p[2])),
+                    "String" => Column::String(if p[2].is_empty() { vec![] } else { p[2].split(',').map(|h| unsafe { String::from_utf8_unchecked(unhex(h)) }).collect() }),
+                    _ => Column::Mixed(if p[2].is_empty() { vec![] } else { p[2].split(',').map(|x| {
+                        if x == "n" { AnyVal::Null } else if let Some(r) = x.strip_prefix('i') { AnyVal::Int(num(r)) }
+                        else if let Some(r) = x.strip_prefix('f') { AnyVal::Float(f64::from_bits(num::<u64>(r))) }
+                        else { AnyVal::Str(unsafe { String::from_utf8_unchecked(unhex(&x[1..])) }) } }).collect() }),
+                };
+                columns.insert(p[0].to_string(), col);
+            }
+            let bytes = QueryResponse { columns }.serialize();
+            let r = QueryResponse::deserialize(&bytes).unwrap();
+            let mut names: Vec<&String> = r.columns.keys().collect();
+            names.sort();
+            Some(names.iter().map(|n| match &r.columns[*n] {
+                Column::Int(v) => format!("{}:Int:{}", n, fmt_vec(v)),
+                Column::Float(v) => format!("{}:Float:{}", n, fmt_f64_bits(v)),
+                Column::Xor(v) => format!("{}:Xor:{}", n, fmt_vec(v)),
+                Column::Null(k) => format!("{}:Null:{}", n, k),
+                Column::String(v) => format!("{}:String:{}", n, v.iter().map(|s| hex(s.as_bytes())).collect::<Vec<_>>().join(",")),
+                Column::Mixed(v) => format!("{}:Mixed:{}", n, v.iter().map(|a| match a {
+                    AnyVal::Null => "n".to_string(), AnyVal::Int(i) => format!("i{}", i), AnyVal::Float(f) => format!("f{}", f.to_bits()), AnyVal::Str(s) => format!("s{}", hex(s.as_bytes())) }).collect::<Vec<_>>().join(",")),
+            }).collect::<Vec<_>>().join(" "))
+        }
         "xor_roundtrip" => {
             let floats: Vec<f64> = vec_of::<u64>(t[0]).into_iter().map(f64::from_bits).collect();
             let regret: u32 = num(t[1]);
